@@ -199,14 +199,43 @@ structure RInvE (p : Port) (r : Run) : Prop where
   k : RInv p r
   ev : r.evs.all evOK = true
 
+theorem filter_evok (l : List Ev) (f : Ev → Bool) (h : l.all evOK = true) : (l.filter f).all evOK = true := by
+  rw [List.all_eq_true] at *
+  intro x hx
+  exact h x (List.mem_filter.mp hx).1
+
+theorem readTail_ev (o : Oracle) {r : Run} {s : S} {evs : List Ev} (hr : r.evs.all evOK = true) (h : Inv s)
+    (he : evs.all evOK = true) : (readTail o r s evs).evs.all evOK = true := by
+  unfold readTail
+  have hi : Inv { s with cbCount := s.cbCount + 1 } := ⟨h.textLen, h.se, h.eMax, h.dec⟩
+  have hi2 : Inv { s with cbCount := s.cbCount + 1, closed := true } := ⟨h.textLen, h.se, h.eMax, h.dec⟩
+  split
+  · split
+    · exact add_evok hr h he
+    · split
+      · exact add_evok hr h he
+      · dsimp only
+        split
+        · refine add_evok hr hi ?_
+          rw [List.all_append, List.all_append, filter_evok _ _ he, filter_evok _ _ he]; rfl
+        · refine add_evok hr hi ?_
+          rw [List.all_append, List.all_append, List.all_append, filter_evok _ _ he, filter_evok _ _ he]; rfl
+        · refine add_evok hr hi2 ?_
+          rw [List.all_append, List.all_append, filter_evok _ _ he, filter_evok _ _ he]; rfl
+  · exact add_evok hr h he
+
 theorem doRead_ev (o : Oracle) {p : Port} {r : Run} (k : RInvE p r) : RInvE p (doRead o r) := by
   refine ⟨doRead_rinv o k.k, ?_⟩
   unfold doRead
   split
   · exact k.ev
-  · obtain ⟨s', evs, h1, h2, _⟩ := getUserData_ok' o k.k.inv
+  · rcases getUserDataH_cases o k.k.inv with ⟨hh, _, _⟩ | ⟨hh, _⟩
+    · rw [hh]
+      exact readTail_ev o k.ev ⟨k.k.inv.textLen, k.k.inv.se, k.k.inv.eMax, decInv_fl k.k.inv.dec _⟩ rfl
+    rw [hh]
+    obtain ⟨s', evs, h1, h2, _⟩ := getUserData_ok' o k.k.inv
     rw [h1]
-    exact add_evok k.ev h2 (getUserData_evok o k.k.inv h1)
+    exact readTail_ev o k.ev h2 (getUserData_evok o k.k.inv h1)
 
 theorem txEv_evok (tx : List Byte) : (txEv tx).all evOK = true := by
   unfold txEv; split <;> rfl
@@ -345,6 +374,11 @@ theorem stepOp_ev (o : Oracle) {p : Port} {r : Run} (k : RInvE p r) (op : Op)
   | finish => exact (finishLoop_ev o 20000 k).ev
   | line b => exact (doLine_ev k (hw (Or.inl ⟨b, rfl⟩)) b).ev
   | wpipe b => exact (doWpipe_ev k (hw (Or.inr ⟨b, rfl⟩)) b).ev
+  | snoopOn =>
+    dsimp only
+    split
+    · exact k.ev
+    · exact add_evok (r := { r with snoop := true }) k.ev k.k.inv rfl
   | getchar ne => exact (doSetCall_ev k (hw2 (Or.inr (Or.inl ⟨ne, rfl⟩))) true ne).ev
   | inputto ne => exact (doSetCall_ev k (hw2 (Or.inr (Or.inr ⟨ne, rfl⟩))) false ne).ev
   | serve => exact (doServe_ev k (hw2 (Or.inl rfl))).ev
